@@ -46,7 +46,7 @@ where
                 kani::cover!(true, "[refused] the stub refused the chunk size");
                             return;
             }
-            kani::cover!(bump.stats().count() == 2, "reserve created a chunk");
+            kani::cover!(bump.stats().count() == 2, "[reserve] reserve created a chunk");
             check_geometry(&*bump, header_size, header_align);
             // the promise of reserve: `n` more bytes can be allocated without a base-allocator call. The first chunk's
             // remainder and the new chunk together hold them; here: the part that did not fit in chunk 1
@@ -122,7 +122,8 @@ fn check_geometry<A, St: BumpAllocatorSettings>(bump: &Bump<A, St>, header_size:
 where
     A: BaseAllocator<St::GuaranteedAllocated>,
 {
-    let c = bump.stats().current_chunk().unwrap();
+    // the chunk that was created last (reserve appends a chunk without making it the current one)
+    let c = bump.stats().big_to_small().next().unwrap();
     let (cs, ce, s, e) = (addr(c.chunk_start()), addr(c.chunk_end()), addr(c.content_start()), addr(c.content_end()));
     let size = ce - cs;
     assert!(size % 16 == 0, "C12: chunk size not a multiple of 16");
